@@ -172,11 +172,15 @@ struct InclEngine : Engine {
 		bool use_base = w.chance(1, 3), use_wild = w.chance(1, 3), use_faults = fr.chance(1, 2), use_odd = w.chance(1, 3);
 		int fmt = w.chance(1, 2) ? FMT_HTML : w.chance(1, 3) ? (int)w.below(13) : gen_text_format(w);      // every format has its own wildcard mapping (EPUB -> .html, ODT -> .fodt, bundles -> .txt)
 		bool dag = w.chance(1, 2);          // half of the worlds are acyclic by construction (file i only names files j > i), so clauses (b)/(c) get their share
+		// one world in twelve combines what otherwise only meets by coincidence: cycles closed through `.*` wildcard markers in files that re-spell
+		// their directory with a relative `transclude base`, in a format that maps the wildcard
+		bool wildcycle = w.chance(1, 12);
+		if (wildcycle) { use_base = true; use_wild = true; dag = false; if (fmt == FMT_MMD) fmt = FMT_HTML; }
 		std::vector<std::string> names, paths;
 		for (int i = 0; i < nfiles; i++) {
 			std::string dir = dirs[w.below((uint64_t)ndirs)];
 			std::string nm = std::string(1, (char)('a' + i));
-			bool wild = use_wild && w.chance(1, 3);
+			bool wild = use_wild && w.chance(wildcycle ? 2 : 1, 3);
 			std::string ext = wild ? ext_for(fmt) : ".txt";
 			names.push_back(nm + (wild ? ".*" : ext));
 			paths.push_back(dir + "/" + nm + ext);
